@@ -18,7 +18,7 @@ Ltac sproj :=
        s_remote_win_scale s_remote_has_sack s_remote_mss s_remote_last_ts s_local_rx_last_seq
        s_local_rx_last_ack s_local_rx_dup_acks s_pending_fast_retransmit s_ack_delay
        s_ack_delay_timer s_challenge_ack_timer s_nagle s_congestion_controller s_tsval_generator
-       s_last_remote_tsval
+       s_last_remote_tsval s_syn_unacked_in_fin_wait
        upd_state upd_timer upd_rtte upd_assembler upd_rx_buffer upd_rx_fin_received upd_tx_buffer
        upd_timeout upd_keep_alive upd_hop_limit upd_listen_endpoint upd_tuple upd_local_seq_no
        upd_remote_seq_no upd_remote_last_seq upd_remote_last_ack upd_remote_last_win
@@ -26,7 +26,7 @@ Ltac sproj :=
        upd_remote_mss upd_remote_last_ts upd_local_rx_last_seq upd_local_rx_last_ack
        upd_local_rx_dup_acks upd_pending_fast_retransmit upd_ack_delay upd_ack_delay_timer
        upd_challenge_ack_timer upd_nagle upd_congestion_controller upd_tsval_generator
-       upd_last_remote_tsval tcp_set_state].
+       upd_last_remote_tsval upd_syn_unacked_in_fin_wait tcp_set_state].
 
 Tactic Notation "sproj" "in" hyp(H) :=
   cbn [s_state s_timer s_rtte s_assembler s_rx_buffer s_rx_fin_received s_tx_buffer s_timeout
@@ -35,7 +35,7 @@ Tactic Notation "sproj" "in" hyp(H) :=
        s_remote_win_scale s_remote_has_sack s_remote_mss s_remote_last_ts s_local_rx_last_seq
        s_local_rx_last_ack s_local_rx_dup_acks s_pending_fast_retransmit s_ack_delay
        s_ack_delay_timer s_challenge_ack_timer s_nagle s_congestion_controller s_tsval_generator
-       s_last_remote_tsval
+       s_last_remote_tsval s_syn_unacked_in_fin_wait
        upd_state upd_timer upd_rtte upd_assembler upd_rx_buffer upd_rx_fin_received upd_tx_buffer
        upd_timeout upd_keep_alive upd_hop_limit upd_listen_endpoint upd_tuple upd_local_seq_no
        upd_remote_seq_no upd_remote_last_seq upd_remote_last_ack upd_remote_last_win
@@ -43,7 +43,7 @@ Tactic Notation "sproj" "in" hyp(H) :=
        upd_remote_mss upd_remote_last_ts upd_local_rx_last_seq upd_local_rx_last_ack
        upd_local_rx_dup_acks upd_pending_fast_retransmit upd_ack_delay upd_ack_delay_timer
        upd_challenge_ack_timer upd_nagle upd_congestion_controller upd_tsval_generator
-       upd_last_remote_tsval tcp_set_state] in H.
+       upd_last_remote_tsval upd_syn_unacked_in_fin_wait tcp_set_state] in H.
 
 (* the outcome monad *)
 Lemma obind_ok : forall A B (x : outcome A) (f : A -> outcome B) b,
@@ -372,25 +372,35 @@ Proof.
 Qed.
 
 Lemma reno_set_mss_pos : forall r m, 0 < m -> reno_pos r -> reno_pos (reno_set_mss r m).
-Proof. intros r m Hm (_ & Hc & Hs & Hw). unfold reno_set_mss, reno_pos. reno_fields. auto. Qed.
-
-(* [set_mss] is the one path on which "cwnd >= mss" can be lost: it holds afterwards exactly when
-   the new MSS does not exceed the current window (and, in fast recovery, ssthresh) *)
-Lemma reno_set_mss_ge_mss : forall r m,
-  0 < m <= usize_max -> m <= rn_cwnd r -> (rn_in_fast_recovery r = true -> m <= rn_ssthresh r) ->
-  reno_ge_mss r -> reno_ge_mss (reno_set_mss r m).
 Proof.
-  intros r m Hm Hc' Hs' (_ & Hc & Hw & Hs). unfold reno_set_mss, reno_ge_mss. reno_fields. auto.
+  intros r m Hm (_ & Hc & Hs & Hw). unfold reno_set_mss, reno_pos. reno_fields.
+  repeat split; try assumption; lia.
 Qed.
 
-(* counter-model (confirmed on the crate: corpus/C02/tcp-reno-cwnd-below-mss.case): after one RTO
-   the window is one old MSS (1024); a peer MSS of 1460 then exceeds it *)
-Lemma reno_set_mss_refuted :
-  exists r m, reno_ge_mss r /\ 0 < m <= 65535 /\
-              rn_cwnd (reno_set_mss r m) < rn_mss (reno_set_mss r m).
+(* [set_mss] (as repaired by /repo 8f8eb43: cwnd := max cwnd mss) keeps "cwnd >= mss"; what it can
+   still lose is the fast-recovery clause: a controller that is in fast recovery (only possible
+   for a socket re-used after a connection that ended in fast recovery: reset() keeps the
+   controller) deflates to the old ssthresh on the next new-data ACK *)
+Lemma reno_set_mss_ge_mss : forall r m,
+  0 < m <= usize_max -> (rn_in_fast_recovery r = true -> m <= rn_ssthresh r) ->
+  reno_ge_mss r -> reno_ge_mss (reno_set_mss r m).
 Proof.
-  exists (reno_on_rto reno_new 0), 1460. split; [apply reno_on_rto_ge_mss, reno_new_ge_mss|].
-  split; [lia|]. vm_compute. reflexivity.
+  intros r m Hm Hs' (_ & Hc & Hw & Hs). unfold reno_set_mss, reno_ge_mss. reno_fields.
+  repeat split; try assumption; lia.
+Qed.
+
+Lemma reno_set_mss_window_ge : forall r m, m <= rn_cwnd (reno_set_mss r m).
+Proof. intros. unfold reno_set_mss. reno_fields. lia. Qed.
+
+(* residual counter-model on the controller alone: fast recovery entered with MSS 1024
+   (ssthresh = 2048), then the MSS is raised to 4000, then new data is acknowledged *)
+Lemma reno_deflate_refuted :
+  exists r m len r', reno_ge_mss r /\ 0 < m <= 65535 /\
+     reno_on_ack (reno_set_mss r m) len = Ok r' /\ rn_cwnd r' < rn_mss r'.
+Proof.
+  exists (reno_on_loss reno_new 0), 4000, 1, (mkReno 2048 4000 2048 65536 false false).
+  split; [apply reno_on_loss_ge_mss, reno_new_ge_mss|]. split; [lia|].
+  split; vm_compute; reflexivity.
 Qed.
 
 (* controller level *)
